@@ -135,3 +135,10 @@ func init() {
 			"key := zed.TypeID(val.Type())", "key := val.Type().ID()", "C20-R2", "the shaper cache"},
 	)
 }
+
+func init() {
+	addMutants(
+		Mutant{"C03", "c03-dict-sort-ties", "vng/primitive.go", "sortDict",
+			"return bytes.Compare(entries[i].Value.Bytes(), entries[j].Value.Bytes()) < 0", "return false", "C03-D1", "sortDict less function"},
+	)
+}
